@@ -70,7 +70,7 @@ var focusWeights = map[string]map[string]int{
 		"str.create": 3, "str.claim": 3, "str.topup": 2, "str.rate": 2, "str.cancel": 1, "bank.send": 2, "authz.grant": 2, "authz.revoke": 1,
 		"authz.exec": 3, "feegrant.grant": 1},
 	"query":  {},
-	"genesis": {"ent.wl": 3, "ent.raise": 7, "ent.decide": 7, "wrk.reg": 3, "wrk.rec": 10, "wrk.buy": 2, "bcn.reg": 3, "bcn.rec": 10, "bcn.buy": 2,
+	"genesis": {"ent.wl": 3, "ent.raise": 7, "ent.decide": 7, "wrk.reg": 3, "wrk.rec": 10, "wrk.buy": 4, "bcn.reg": 3, "bcn.rec": 10, "bcn.buy": 4,
 		"str.create": 5, "str.claim": 2, "str.topup": 2, "str.rate": 1, "str.cancel": 1, "bank.send": 2, "authz.grant": 1, "feegrant.grant": 1},
 	"crash": {},
 	// many concurrent orders with mixed accept / reject decisions while governance keeps changing the
@@ -117,7 +117,7 @@ func newWeights(focus string) (*weights, error) {
 	case "query":
 		w.queries = true
 	case "genesis":
-		w.genesis = true
+		w.genesis, w.govPct = true, 12 // parameter changes between purchases and exports (limits above a lowered maximum, …)
 	case "crash":
 		w.crashPct, w.bulkPct = 5, 8
 	case "reg":
@@ -447,15 +447,23 @@ blocks:
 		// body of the open block so far, kept so that a crash focus can emit the block again
 		type bodyLine struct {
 			tx  *script.Tx // TX line
-			gov script.Msg // GOVEXEC line (tx == nil)
+			gov []script.Msg // GOVEXEC line (tx == nil): the messages of one proposal
 		}
 		var body []bodyLine
 		emitBody := func(l bodyLine) error {
 			if l.tx == nil {
-				if _, err := emit(fmt.Sprintf("GOVEXEC %d %s", g.next(), l.gov)); err != nil {
+				ms := make([]string, len(l.gov))
+				for i, m := range l.gov {
+					ms[i] = m.String()
+				}
+				if _, err := emit(fmt.Sprintf("GOVEXEC %d %s", g.next(), strings.Join(ms, " ; "))); err != nil {
 					return err
 				}
-				govKinds = append(govKinds, l.gov.Kind)
+				kind := l.gov[0].Kind
+				if len(l.gov) > 1 {
+					kind = "proposal-of-several"
+				}
+				govKinds = append(govKinds, kind)
 				return nil
 			}
 			if _, err := emit(l.tx.Line("TX")); err != nil {
@@ -527,7 +535,7 @@ blocks:
 		for i := 0; i <= ntx; i++ {
 			for len(govAt) > 0 && govAt[0] == i {
 				govAt = govAt[1:]
-				l := bodyLine{gov: g.govMsg(newView(ip.R, ip.R.DeliverCtx()))}
+				l := bodyLine{gov: g.proposal(newView(ip.R, ip.R.DeliverCtx()))}
 				body = append(body, l)
 				if err := emitBody(l); err != nil {
 					return st, err
@@ -577,7 +585,7 @@ blocks:
 
 // genesis draws the scenario genesis.
 func (g *G) genesis() *script.Genesis {
-	const base = "1000000000000000000nund,1000000000000000000000000000000atoken,1000000000000btoken"
+	const base = "1000000000000000000nund,1000000000000000000000000000000atoken,1000000000000btoken,123456789ibc/C0FFEE" // the last one: a voucher-style denomination with upper-case characters
 	gs := &script.Genesis{Time: 1_700_000_000}
 	gs.MarkAll()
 	g.n = 6 + g.rng.Intn(5)
